@@ -2,9 +2,9 @@
 
 Three comparisons on every generated history of configuration calls (library + generated SBML models):
 
-(a) correspondence  chi  vs  the Lean state machine `MechConfig.step` (legacy variant = the code as it
-    is): outcome of every call (ok / exception kind) and, after every call, `parameters()`,
-    `n_parameters()`, `outputs()`, reported regimen, `has_sensitivities()`; at the end (and at random
+(a) correspondence  chi  vs  the Lean state machine `MechConfig.step` (the code as it is, /repo at bcb3fc2
+    or later; the machine before that commit survives only in the counterexample theorems): outcome of every
+    call (ok / exception kind) and, after every call, `parameters()`, `n_parameters()`, `outputs()`, reported regimen, `has_sensitivities()`; at the end (and at random
     intermediate points) the *call record* of a `simulate` on the reference integrator: the states of the
     model the solver integrates, the variable bound to `pace`, the protocol attached at run time, the
     sensitivities requested, which named state / constant received which position of the argument
@@ -28,17 +28,20 @@ import core
 import refsim
 
 REQUIRED_THEOREMS = [
-    'C11_refines', 'C11_net_config', 'C11_legacy_eq_intended', 'C11_net_config_partial',
+    'C11_refines', 'C11_net_config', 'C11_net_config_state', 'C11_reported_regimen_applied',
+    'C11_simulate_never_raises', 'C11_admin_rejects_missing_outputs',
+    'C11_canonical_reaches', 'C11_fresh_by_canonical_calls', 'C11_net_config_by_calls', 'C11_canon_structural',
+    'C11_copy_same', 'C11_copy_same_history', 'C11_copy_independent', 'C11_flag_matches_solver',
+    'C11_legacy_eq_now', 'C11_legacy_net_config_partial', 'C11_flag_matches_solver_legacy',
     'C11_direct_after_indirect_counterexample', 'C11_readmin_after_regimen_counterexample',
-    'C11_rename_then_indirect_counterexample', 'C11_reported_regimen_applied',
-    'C11_reported_regimen_applied_partial', 'C11_copy_same', 'C11_copy_independent',
-    'C11_flag_matches_solver', 'C11_copy_same_partial',
+    'C11_rename_then_indirect_counterexample',
     'C11_outputs_after_empty_sens_counterexample_before_4fca413']
 RULE = ('histories of set_administration / set_dosing_regimen / set_outputs / set_parameter_names / '
         'set_output_names / enable_sensitivities / wrap in ReducedMechanisticModel / fix_parameters / copy '
         '(valid and invalid arguments) on 4 library and 3 generated SBML models; quick: random, length <= 8; '
         'thorough: exhaustive to length 4 over a reduced alphabet on the one-compartment model and to length 3 '
-        'over a second alphabet (wrap / fix / rename) on the erlotinib model, then random to length 20; non-trivial = history with >= 2 successful calls of different kinds; distinct = '
+        'over a second alphabet (wrap / fix / rename) on the erlotinib model and a third (two dosable '
+        'compartments, depot outputs) on a generated two-compartment model, then random to length 20; non-trivial = history with >= 2 successful calls of different kinds; distinct = '
         'distinct (model, sequence of call kinds with their outcome)')
 ASSUMPTIONS = [
     'the ODE solution is a function of the solver call record (refsim stands in for CVODES); C09/C10 are '
@@ -282,6 +285,14 @@ class Live:
         return c
 
 
+def first_wins(pairs):
+    """the dictionary a list of pairs denotes in the model (association list: the first entry of a key counts)"""
+    d = {}
+    for a, b in pairs:
+        d.setdefault(a, b)
+    return d
+
+
 def apply_op(live, op):
     """returns 'ok' or the exception kind"""
     chi = live.kit.chi
@@ -299,9 +310,9 @@ def apply_op(live, op):
         elif k == 'out':
             m.set_outputs(list(op[1]))
         elif k == 'pn':
-            m.set_parameter_names({a: b for a, b in op[1]})
+            m.set_parameter_names(first_wins(op[1]))
         elif k == 'on':
-            m.set_output_names({a: b for a, b in op[1]})
+            m.set_output_names(first_wins(op[1]))
         elif k == 'sens':
             if op[2] is None:
                 m.enable_sensitivities(op[1])
@@ -315,7 +326,7 @@ def apply_op(live, op):
             for _, v in op[1]:
                 if v is not None and v not in live.fixed_ids:
                     live.fixed_ids.append(v)
-            m.fix_parameters({a: (None if v is None else fixed_value(v)) for a, v in op[1]})
+            m.fix_parameters({a: (None if v is None else fixed_value(v)) for a, v in first_wins(op[1]).items()})
         elif k == 'copy':
             live.m = m.copy()
         else:
@@ -479,6 +490,13 @@ class Gen:
                 pairs[0][1] = self.pick([c for c in cur])         # coincides with an existing name
             elif u < 0.2:
                 pairs.append(['not_a_name', self.fresh_name(stem)])   # ignored
+            elif u < 0.26:
+                # a default name that is not displayed at the moment (its owner was renamed, or it belongs to
+                # the depot of the other route): accepted; the net configuration may then need two calls
+                free_defaults = [n for n in kit.states + kit.consts + [kit.dose_state, kit.dose_const]
+                                 if n not in cur]
+                if free_defaults:
+                    pairs[0][1] = self.pick(free_defaults)
             return [k, pairs]
         if k == 'sens':
             on = bool(rng.random() < 0.7)
@@ -495,7 +513,9 @@ class Gen:
         if k == 'fix':
             if not live.wrapped:
                 return ['fix', [['x', 0]]]                        # AttributeError
-            cur = [str(x) for x in live.inner().parameters()]
+            # (a Python dict cannot repeat a key: two parameters may display the same name after renaming one
+            # to the default name of a depot parameter and then selecting the indirect route)
+            cur = list(dict.fromkeys(str(x) for x in live.inner().parameters()))
             names = self.subset(cur, 1, 2)
             pairs = []
             for nme in names:
@@ -543,10 +563,10 @@ def history_classes(ops, outcomes):
 # ----------------------------------------------------------------------------------------
 # fresh object with the net configuration
 # ----------------------------------------------------------------------------------------
-def build_fresh(kit, cfg):
-    """a new chi object to which only the configuration `cfg` (Lean `Config`) is applied"""
+def python_canonical(cfg):
+    """the calls that apply the configuration `cfg` (Lean `Config`) to a new object, computed here
+    independently of Lean's `canonical` (compared with it on every case)"""
     admin, regimen, outputs, pmap, omap, sens, red = cfg
-    live = Live(kit)
     steps = []
     if admin is not None:
         steps.append(['adm', admin[0], admin[1], admin[2]])
@@ -578,8 +598,18 @@ def build_fresh(kit, cfg):
             steps.append(['fix', pairs])
         if empty_sens:
             steps.append(['sens', True, None])
+    return steps
+
+
+def build_fresh(kit, steps):
+    """a new chi object to which only the given calls are applied"""
+    live = Live(kit)
     outcomes = [apply_op(live, s) for s in steps]
-    return live, steps, outcomes
+    return live, outcomes
+
+
+def drop_empty_renames(steps):
+    return [s for s in steps if not (s[0] in ('pn', 'on') and not s[1])]
 
 
 def same_behaviour(a, b, ignore_sens=False):
@@ -638,78 +668,61 @@ def run_history(ctx, kit, source, length, label, sim_prob=0.15, copy_check=False
              nontrivial=('%s/%s' % (kit.name, ','.join(kinds))) if n_ok_kinds >= 2 else False, sample=inp)
 
     # ---- (a) correspondence with the Lean state machine (the code as it is)
-    leg = ctx.model('C11.run', kit.base(), True, ops)
-    itd = ctx.model('C11.run', kit.base(), False, ops)
+    ref = ctx.model('C11.run', kit.base(), False, ops)
     spec = ctx.model('C11.spec', kit.base(), ops)
-    leg_final = lean_obs(leg[1][-1])
-    itd_final = lean_obs(itd[1][-1])
     spec_final = lean_obs(spec[1][-1])
-    chi_final = dict(public_part(final), sim=final['sim'])
-    matches_legacy = (outcomes == leg[0] and chi_final == leg_final
-                      and all(public[i] == lean_obs(leg[1][i + 1], False) for i in range(len(ops))))
-    matches_intended = (outcomes == itd[0] and chi_final == itd_final
-                        and all(public[i] == lean_obs(itd[1][i + 1], False) for i in range(len(ops))))
-    ref, refname = (itd, 'intended') if (matches_intended and not matches_legacy) else (leg, 'legacy')
-    ctx.branches.add('variant:' + ('both' if matches_legacy and matches_intended else
-                                   refname if (matches_legacy or matches_intended) else 'neither'))
     ctx.agree('C11.step_outcomes', outcomes, ref[0], inp)
     for i in range(len(ops)):
         ctx.agree('C11.observe_public', public[i], lean_obs(ref[1][i + 1], False), dict(inp, after_step=i))
     for i, o in mid_sims.items():
         ctx.agree('C11.simulate_record', o['sim'], lean_obs(ref[1][i + 1])['sim'], dict(inp, after_step=i))
     ctx.agree('C11.simulate_record', final['sim'], lean_obs(ref[1][-1])['sim'], inp)
-    # the intended machine is the configuration machine (theorem C11_net_config, re-checked on this input)
-    ctx.agree('C11.model_intended_eq_spec', [itd[0], itd[1]], [spec[0], spec[1]], inp)
+    # the object machine is the configuration machine (theorem C11_net_config, re-checked on this input)
+    ctx.agree('C11.model_eq_spec', [ref[0], ref[1]], [spec[0], spec[1]], inp)
+    classes = history_classes(ops, outcomes)
+    for c in classes:
+        ctx.branches.add('class:' + c)          # formerly defective history classes, now plain coverage
 
     # ---- (b) the property on chi: fresh object + net configuration
-    classes = history_classes(ops, outcomes)
-    repaired = matches_intended and not matches_legacy
-    expected_diff = (leg_final != spec_final) and not repaired
-    well_ordered = bool(spec[3])
-    # C11_net_config_partial: on a well-ordered history the legacy machine equals the configuration machine
-    ctx.agree('C11.partial_theorem_on_this_input', [well_ordered and leg_final != spec_final,
-                                                    well_ordered and bool(classes)], [False, False], inp)
     cfg = spec[2]
-    fresh, steps, fouts = build_fresh(kit, cfg)
-    # the canonical calls that apply `cfg` to a new object: the configuration machine must say they reach
-    # `cfg` (this is `net (canonical c) = c`, checked per input, not proved), raising only where it says
-    # (fixing every parameter while sensitivities are enabled raises after the mask is set: defect #22)
-    fm = ctx.model('C11.run', kit.base(), False, steps)
-    ctx.agree('C11.canonical_calls_reach_net_config', lean_obs(fm[1][-1]), spec_final, dict(inp, steps=steps))
-    ok_fresh = (fouts == fm[0])
-    ctx.spec('C11.fresh_constructible', ok_fresh, inp, {'steps': steps, 'outcomes': fouts, 'model': fm[0]})
-    if ok_fresh:
-        fobs = observe(fresh, simulate=True)
-        diffs = same_behaviour(final, fobs)
-        tag = 'C11.net_config'
-        if expected_diff and classes:
-            tag = 'C11.net_config/' + classes[0]
-        ctx.spec(tag, not diffs, inp, {'differs_in': diffs, 'classes': classes, 'net': cfg,
-                                       'history': {k: final.get(k) for k in
-                                                   ('params', 'n', 'outputs', 'regimen', 'hasSens', 'raised')},
-                                       'fresh': {k: fobs.get(k) for k in
-                                                 ('params', 'n', 'outputs', 'regimen', 'hasSens', 'raised')}})
-        # the fresh object itself must be what the model says a fresh object is
-        ctx.agree('C11.fresh_object', dict(public_part(fobs), sim=fobs['sim']), spec_final, inp)
+    steps = spec[4]                     # Lean `canonical (net ops)`: theorem C11_canonical_reaches is about these
+    ctx.agree('C11.canonical_calls', drop_empty_renames(steps), python_canonical(cfg), inp)
+    # hypothesis `Canon` of C11_canonical_reaches / C11_net_config_by_calls, evaluated on this net configuration.
+    # It fails only when displayed names collide with default names / each other across several renamings; the
+    # one-call-per-setting construction of the fresh object is then not available and (b) is skipped
+    canon_ok = bool(spec[5])
+    ctx.branches.add('canon:' + str(canon_ok))
+    if canon_ok:
+        fresh, fouts = build_fresh(kit, steps)
+        fm = ctx.model('C11.run', kit.base(), False, steps)
+        ctx.agree('C11.canonical_calls_reach_net_config', lean_obs(fm[1][-1]), spec_final, dict(inp, steps=steps))
+        ok_fresh = (fouts == fm[0])
+        ctx.spec('C11.fresh_constructible', ok_fresh and all(x == 'ok' for x in fouts), inp,
+                 {'steps': steps, 'outcomes': fouts, 'model': fm[0]})
+        if ok_fresh:
+            fobs = observe(fresh, simulate=True)
+            diffs = same_behaviour(final, fobs)
+            ctx.spec('C11.net_config', not diffs, inp,
+                     {'differs_in': diffs, 'classes': classes, 'net': cfg,
+                      'history': {k: final.get(k) for k in ('params', 'n', 'outputs', 'regimen', 'hasSens', 'raised')},
+                      'fresh': {k: fobs.get(k) for k in ('params', 'n', 'outputs', 'regimen', 'hasSens', 'raised')}})
+            # the fresh object itself must be what the model says a fresh object is
+            ctx.agree('C11.fresh_object', dict(public_part(fobs), sim=fobs['sim']), spec_final, inp)
+    # simulate never raises after a history of configuration calls (theorem C11_simulate_never_raises)
+    ctx.spec('C11.simulate_runs', final['applied'] != 'raises', inp, {'raised': final.get('raised')})
     # reported regimen = applied protocol
     if final['applied'] != 'raises':
-        tag = 'C11.regimen_applied'
-        lsim = leg_final['sim']
-        if 'readmin_after_regimen' in classes and lsim is not None and lsim[2] != leg_final['regimen'] \
-                and not (matches_intended and not matches_legacy):
-            tag = 'C11.regimen_applied/readmin_after_regimen'
-        ctx.spec(tag, final['applied'] == final['regimen'], inp,
+        ctx.spec('C11.regimen_applied', final['applied'] == final['regimen'], inp,
                  {'reported': final['regimen'], 'applied': final['applied']})
     for i, o in mid_sims.items():
-        if o['applied'] != 'raises' and 'readmin_after_regimen' not in history_classes(ops[:i + 1],
-                                                                                       outcomes[:i + 1]):
+        ctx.spec('C11.simulate_runs', o['applied'] != 'raises', dict(inp, after_step=i), {'raised': o.get('raised')})
+        if o['applied'] != 'raises':
             ctx.spec('C11.regimen_applied', o['applied'] == o['regimen'], dict(inp, after_step=i),
                      {'reported': o['regimen'], 'applied': o['applied']})
 
     # ---- (c) copies
     if copy_check and rng is not None:
-        copy_checks(ctx, kit, live, final, ops, rng, classes if not repaired else [],
-                    'intended' if repaired else 'legacy')
+        copy_checks(ctx, kit, live, final, ops, rng, minimal=label.startswith('witness'))
     return live, ops, outcomes
 
 
@@ -717,7 +730,26 @@ def strip_sens(sim):
     return None if sim is None else [sim[0], sim[1], sim[2], None, sim[4], sim[5], sim[6]]
 
 
-def copy_checks(ctx, kit, live, before, ops, rng, classes=(), variant='legacy', explicit=None):
+def minimal_mutations(live):
+    """the smallest in-place changes: one more fixed parameter (mask / value buffer), one renamed parameter and
+    output (name dictionaries), a regimen (solver object)"""
+    m = live.m
+    muts = []
+    free = [str(x) for x in m.parameters()]
+    if live.wrapped and free:
+        muts.append(['fix', [[free[0], 900]]])
+    inner = [str(x) for x in live.inner().parameters()]
+    if inner:
+        muts.append(['pn', [[inner[-1], 'Z900']]])
+    outs = [str(x) for x in m.outputs()]
+    if outs:
+        muts.append(['on', [[outs[0], 'Y900']]])
+    if live.kit.pkpd:
+        muts.append(['reg', 1])
+    return muts
+
+
+def copy_checks(ctx, kit, live, before, ops, rng, explicit=None, minimal=False):
     inp = {'model': kit.name, 'ops': ops, 'label': 'copy'}
     try:
         cp = live.clone()
@@ -726,7 +758,7 @@ def copy_checks(ctx, kit, live, before, ops, rng, classes=(), variant='legacy', 
         return
     cobs = observe(cp, simulate=True)
     # the model's copy
-    mc = ctx.model('C11.run', kit.base(), variant == 'legacy', ops + [['copy']])
+    mc = ctx.model('C11.run', kit.base(), False, ops + [['copy']])
     m_orig, m_copy = lean_obs(mc[1][-2]), lean_obs(mc[1][-1])
     ctx.agree('C11.copy_observe', dict(public_part(cobs), sim=cobs['sim']), m_copy, inp)
     diffs = same_behaviour(before, cobs, ignore_sens=True)
@@ -734,14 +766,10 @@ def copy_checks(ctx, kit, live, before, ops, rng, classes=(), variant='legacy', 
         diffs.append('copy has sensitivities enabled')      # documented: copying resets them
     if cobs['sens_values'] is not None:
         diffs.append('copy returns sensitivities')
-    tag = 'C11.copy/same'
-    model_predicts_difference = (strip_sens(m_orig['sim']) != strip_sens(m_copy['sim'])
-                                 or any(m_orig[k] != m_copy[k] for k in ('params', 'n', 'outputs', 'regimen')))
-    if model_predicts_difference and classes:
-        # copying an object whose solver is out of step with its configuration (known classes) re-attaches
-        # the reported regimen / rebuilds the solver on `_model`: the copy then differs from the original
-        tag = 'C11.copy/same/' + classes[0]
-    ctx.spec(tag, not diffs, inp, {'differs_in': diffs})
+    # C11_copy_same on this input: the model's copy makes the original's solver calls
+    ctx.agree('C11.model_copy_same', [strip_sens(m_copy['sim'])] + [m_copy[k] for k in ('params', 'n', 'outputs', 'regimen')],
+              [strip_sens(m_orig['sim'])] + [m_orig[k] for k in ('params', 'n', 'outputs', 'regimen')], inp)
+    ctx.spec('C11.copy/same', not diffs, inp, {'differs_in': diffs})
     orig_after_copy = observe(live, simulate=True)
     ctx.spec('C11.copy/original_unchanged_by_copying', not same_behaviour(before, orig_after_copy), inp,
              {'differs_in': same_behaviour(before, orig_after_copy)})
@@ -758,6 +786,10 @@ def copy_checks(ctx, kit, live, before, ops, rng, classes=(), variant='legacy', 
         muts = []
         if explicit is not None:
             for op in explicit['mutations']:
+                apply_op(target, op)
+                muts.append(op)
+        elif minimal:
+            for op in minimal_mutations(target):
                 apply_op(target, op)
                 muts.append(op)
         else:
@@ -807,6 +839,9 @@ WITNESSES = [
     ('copy_with_empty_sens', [['wrap'], ['fix', [['central.drug_amount', 0], ['central.size', 1],
                                                   ['global.elimination_rate', 2]]],
                               ['sens', True, None], ['copy']]),
+    ('names_swapped_across_two_calls', [['pn', [['central.size', 'V']]],
+                                        ['pn', [['global.elimination_rate', 'central.size']]],
+                                        ['adm', 'central', 'drug_amount', False], ['sens', True, ['central.size']]]),
     ('stale_output_then_indirect', [['adm', 'central', 'drug_amount', False], ['out', ['dose.drug_amount']],
                                     ['adm', 'central', 'drug_amount', True],
                                     ['adm', 'central', 'drug_amount', False]]),
@@ -825,6 +860,13 @@ def exhaustive_alphabet_wrapped():
             ['out', ['global.tumour_volume', 'central.drug_concentration']]]
 
 
+def exhaustive_alphabet_two_comp():
+    return [['adm', 'central', 'drug_central_amount', True], ['adm', 'peripheral', 'drug_peripheral_amount', False],
+            ['reg', 1], ['out', ['dose.drug_amount', 'central.drug_central_concentration']],
+            ['pn', [['dose.absorption_rate', 'ka'], ['global.k_cp', 'kcp']]], ['sens', True, ['ka', 'kcp']],
+            ['copy'], ['wrap'], ['fix', [['ka', 0], ['peripheral.size', 1]]]]
+
+
 def run(ctx):
     chi = core.import_chi()
     myokit.Simulation = RecSim
@@ -833,31 +875,39 @@ def run(ctx):
         kits = make_kits(chi, wd)
         names = list(kits)
         for label, ops in WITNESSES:
-            run_history(ctx, kits['one_comp'], [list(o) for o in ops], len(ops), 'witness:' + label,
-                        copy_check=True, rng=ctx.sub_rng(10 ** 6))
+            ctx.guard(run_history, ctx, kits['one_comp'], [list(o) for o in ops], len(ops), 'witness:' + label,
+                      copy_check=True, rng=ctx.sub_rng(10 ** 6))
         if ctx.tier == 'quick':
-            n_cases, max_len = 230, 8
+            n_cases, max_len = 200, 8
         else:
-            n_cases, max_len = 900, 20
+            n_cases, max_len = 1500, 20
             alpha = exhaustive_alphabet()
             idx = [[]]
             for depth in range(4):
                 idx = [s + [a] for s in idx for a in range(len(alpha))]
                 for s in idx:
-                    run_history(ctx, kits['one_comp'], [list(alpha[a]) for a in s], len(s), 'exhaustive')
+                    ctx.guard(run_history, ctx, kits['one_comp'], [list(alpha[a]) for a in s], len(s), 'exhaustive')
             alpha = exhaustive_alphabet_wrapped()
             idx = [[]]
             for depth in range(3):
                 idx = [s + [a] for s in idx for a in range(len(alpha))]
                 for s in idx:
-                    run_history(ctx, kits['erlotinib'], [list(alpha[a]) for a in s], len(s), 'exhaustive-wrapped')
+                    ctx.guard(run_history, ctx, kits['erlotinib'], [list(alpha[a]) for a in s], len(s),
+                              'exhaustive-wrapped')
+            alpha = exhaustive_alphabet_two_comp()
+            idx = [[]]
+            for depth in range(3):
+                idx = [s + [a] for s in idx for a in range(len(alpha))]
+                for s in idx:
+                    ctx.guard(run_history, ctx, kits['gen_two_comp'], [list(alpha[a]) for a in s], len(s),
+                              'exhaustive-two-comp')
         weights = np.array([3.0 if kits[n].pkpd else 1.0 for n in names])
         weights /= weights.sum()
         for i in range(n_cases):
             rng = ctx.sub_rng(i)
             kit = kits[names[int(rng.choice(len(names), p=weights))]]
             length = int(rng.integers(1, max_len + 1))
-            run_history(ctx, kit, Gen(rng, kit), length, 'random', copy_check=(i % 3 == 0), rng=rng)
+            ctx.guard(run_history, ctx, kit, Gen(rng, kit), length, 'random', copy_check=(i % 3 == 0), rng=rng)
     ctx.extra['models'] = names
     ctx.extra['refsim'] = 'reference integrator harness/refsim.py installed as myokit.Simulation'
 
@@ -866,15 +916,14 @@ def replay(ctx, data):
     chi = core.import_chi()
     myokit.Simulation = RecSim
     refsim.clear_record()
-    inp = data['failing']['input']
+    inp = data['failing']['input'] if 'failing' in data else data['broken_correspondence'][0]['input']
     with tempfile.TemporaryDirectory(prefix='c11_models_') as wd:
         kits = make_kits(chi, wd)
         kit = kits[inp['model']]
         if inp.get('label') == 'copy':
             live, ops, outs = run_history(ctx, kit, [list(o) for o in inp['ops']], len(inp['ops']), 'replay')
             explicit = {'mutated': inp['mutated'], 'mutations': inp['mutations']} if 'mutations' in inp else None
-            copy_checks(ctx, kit, live, observe(live), ops, np.random.default_rng(0),
-                        history_classes(ops, outs), explicit=explicit)
+            copy_checks(ctx, kit, live, observe(live), ops, np.random.default_rng(0), explicit=explicit)
         else:
             run_history(ctx, kit, [list(o) for o in inp['ops']], len(inp['ops']), 'replay')
     print('spec failures on replay:', [(b['tag'], b['detail']) for b in ctx.spec_bad[:3]])
